@@ -193,13 +193,21 @@ class RealCodec:
       un = np.asarray(pa.unpad())
       f = sum(self.widths)
       if un.shape != (n, f) or not np.array_equal(full[:n, :f], un, equal_nan=True):
-        raise core.InfraError('padded array does not extend the unpadded one')
+        # the padding is part of the encoding: `unpad()` must give back exactly the n x f real block
+        self.unpad_wrong = 'PaddedArray.unpad() of %d encoded trials x %d features has shape %s (padded %s)' % (n, f, tuple(un.shape), tuple(full.shape))
+        un = full[:n, :f]
       if full.shape[0] > n and not np.all(np.isnan(full[n:, :])) or full.shape[1] > f and not np.all(np.isnan(full[:, f:])):
         self.padding_not_nan = True
       return self._flat_rows(un)
     mi = self.conv.to_features(trials)
     cont = np.asarray(mi.continuous.unpad())
     cat = np.asarray(mi.categorical.unpad())
+    nco, nca = self.kinds.count('cont'), len(self.kinds) - self.kinds.count('cont')
+    if cont.shape != (n, nco) or cat.shape != (n, nca):
+      self.unpad_wrong = 'ModelInput.unpad() of %d encoded trials with %d continuous / %d categorical features has shapes %s / %s' % (
+          n, nco, nca, tuple(cont.shape), tuple(cat.shape))
+      cont = np.asarray(mi.continuous.padded_array)[:n, :nco]
+      cat = np.asarray(mi.categorical.padded_array)[:n, :nca]
     rows = []
     for i in range(n):
       ci = ki = 0
@@ -457,6 +465,8 @@ def codec_stage(c, clip_scaled=None):
         elif isinstance(batch, str):
           c.prop_fail('batch-decode-raises:' + path, 'decoding %d feature rows in one call raised %s although each row decodes alone' % (len(big), batch),
                       {'space': space, 'cfg': cfg, 'path': path})
+      if getattr(real, 'unpad_wrong', None):
+        c.prop_fail('unpad-wrong-shape:' + path, 'padding leaks out of the encoding: ' + real.unpad_wrong, {'space': space, 'cfg': cfg, 'path': path})
       if getattr(real, 'padding_not_nan', False):
         c.prop_fail('padding-not-nan', 'padded feature entries are not NaN', {'space': space, 'cfg': cfg})
       c.traces += len(pts_all) + len(arrays) + len(enc)
